@@ -14,7 +14,7 @@ RULE = ("postcondition on operators.crossratio (every call) against the exact va
         "harmonic_set returns a point of the line with cross ratio -1. Recorded values are checked offline for the five symmetry identities and "
         "for invariance under random projective maps in 1D, 2D and 3D. Workload: every line direction x parameters incl. 0 and infinity, pencil "
         "vertices generic / on a coordinate axis / at the origin / at infinity. Non-trivial: all four parameters distinct; distinct by digest."
-        " Also: quadruples of 3D lines that are coplanar but not concurrent / concurrent but not coplanar / skew, one invalid position inside a collection, integer coordinates of the order of 1000, a repeated single point against collections; complex points with complex parameters on complex lines of CP1, the plane and space (non-real cross ratios, harmonic conjugates, also on CP1); collection shapes with axes of length 1 and outer-product broadcasting ((k,1) against (1,k)).")
+        " Also: quadruples of 3D lines that are coplanar but not concurrent / concurrent but not coplanar / skew, one invalid position inside a collection, integer coordinates of the order of 1000, a repeated single point against collections; complex points with complex parameters on complex lines of CP1, the plane and space (non-real cross ratios, harmonic conjugates, also on CP1); collection shapes with axes of length 1 and outer-product broadcasting ((k,1) against (1,k)); every mix of single points / lines and collections in the four argument positions.")
 SHARDS = (8, 16)
 REQUIRED = ["crossratio", "crossratio.raise", "harmonic_set", "symmetry", "invariance"]
 ASSUMPTIONS = ["cross ratios with a coincident pair among the four objects are degenerate and not judged for their value"]
